@@ -114,7 +114,9 @@ def add_arcs(rng: random.Random, asm: dict, prob: float = 0.35) -> None:
                     edges.add(tuple(sorted((cs[p[0]], cs[p[1]]))))
         edges = sorted(edges)
         for e in rng.sample(edges, min(len(edges), rng.randint(1, 3))):
-            arcs.append({"edge": [list(e[0]), list(e[1])], "bulge": [rng.choice([-0.3, -0.15, 0.15, 0.3]) for _ in range(3)]})
+            # bulge relative to the chord, small enough for an arc well below a half circle (beyond that the
+            # length of a three-point arc is direction dependent: C08's known finding, not this property's subject)
+            arcs.append({"edge": [list(e[0]), list(e[1])], "bulge": [rng.choice([-0.18, -0.1, 0.1, 0.18]) for _ in range(3)]})
     asm["arcs"] = arcs
 
 
@@ -308,7 +310,8 @@ def build_mesh(case: dict, order: Optional[List[int]] = None, rots: Optional[Lis
                 for c2 in range(8):
                     if cs[c1] == e0 and cs[c2] == e1:
                         p0, p1 = lattice_point(asm, e0), lattice_point(asm, e1)
-                        mid = [(p0[d] + p1[d]) / 2 + arc["bulge"][d] for d in range(3)]
+                        chord = math.dist(p0, p1)
+                        mid = [(p0[d] + p1[d]) / 2 + arc["bulge"][d] * chord for d in range(3)]
                         lo, hi = min(c1, c2), max(c1, c2)
                         if hi - lo == 4:
                             op.add_side_edge(lo, cb.Arc(mid))
